@@ -376,7 +376,7 @@ func (r *rg) ie(d int) string {
 				m := r.pick(keys(r.macs))
 				args := make([]string, r.macs[m])
 				for i := range args {
-					args[i] = r.ie(d - 1)
+					args[i] = macroArg(r.ie(d - 1))
 				}
 				return fmt.Sprintf("(%s %s)", m, strings.Join(args, " "))
 			}
@@ -460,6 +460,18 @@ func (r *rg) selfCall(d int) string {
 		call = fmt.Sprintf("(%s %s)", r.self, args)
 	}
 	return fmt.Sprintf("(cond (> x 0) %s %s)", call, r.lit())
+}
+
+// macroArg: a BARE dotted symbol (h.b, s1.X, pa.X) handed to a macro is dereferenced when the
+// macro is applied, i.e. while the text is being compiled: in a text that also defines h the
+// expansion fails as a whole ("symbol `h` not found") and succeeds form by form. That is the
+// phase order of macros (expanded when the whole text is compiled), not something an
+// evaluation left behind; the generator does not put a bare dotted symbol in that position.
+func macroArg(a string) string {
+	if i := strings.IndexByte(a, '.'); i > 0 && !strings.ContainsAny(a, "() []{}\"") {
+		return "(+ 0 " + a + ")"
+	}
+	return a
 }
 
 // closedIe: an int expression over globals only (evaluated in another function's context)
@@ -638,7 +650,7 @@ func (r *rg) st(d int) string {
 			}
 		case 16:
 			if len(r.smacs) > 0 {
-				return fmt.Sprintf("(%s %s %s %s)", r.pick(r.smacs), r.be(d-1), r.st(d-1), r.st(d-1))
+				return fmt.Sprintf("(%s %s %s %s)", r.pick(r.smacs), r.be(d-1), macroArg(r.st(d-1)), macroArg(r.st(d-1)))
 			}
 		case 17:
 			return fmt.Sprintf("(cond %s %s %s)", r.be(d-1), r.st(d-1), r.st(d-1))
